@@ -42,7 +42,7 @@ class Policy:
 
 
 def _coord_child(root: str, sources: list[tuple[str, str]], opts: dict[str, Any], n: int, policy: Policy, gate: str,
-                 worker_fault: str | None, wfd: int) -> None:
+                 worker_fault: str | None, wfd: int, coord_kill_msgs: int | None = None) -> None:
     out: dict[str, Any] = {"events": [], "commit_violations": [], "messages": [], "status": 0}
     try:
         os.chdir(root)
@@ -104,6 +104,12 @@ def _coord_child(root: str, sources: list[tuple[str, str]], opts: dict[str, Any]
         def read(cls: Any, buf: Any) -> Any:
             data = orig_read(cls, buf)
             m = ctx["manager"]
+            ctx["nrecv"] = ctx.get("nrecv", 0) + 1
+            if coord_kill_msgs is not None and ctx["nrecv"] >= coord_kill_msgs:
+                # the coordinator process dies here (SIGKILL-like): its workers are left on their own
+                with open(os.path.join(gate, "coordinator.killed"), "w") as kf:
+                    kf.write(",".join(str(w.proc.pid) for w in m.workers))
+                os._exit(9)
             ev = {"ev": "recv", "w": ctx["last_idx"], "ph": 1 if data.is_interface else 2, "sccs": model_sccs(m, data.scc_ids),
                   "blocker": data.blocker is not None}
             out["events"].append(ev)
@@ -235,7 +241,7 @@ def run_parallel(root: str, **kw: Any) -> dict[str, Any]:
 
 def run_parallel_once(root: str, *, cache_dir: str, n: int, policy: Policy | None = None, store: str = "fs", fmt: str = "ff",
                  sources: list[tuple[str, str]] | None = None, gate: str, worker_fault: str | None = None,
-                 timeout: float = 180.0) -> dict[str, Any]:
+                 timeout: float = 180.0, coord_kill_msgs: int | None = None) -> dict[str, Any]:
     sources = sources or [("main.py", "__main__")]
     os.makedirs(gate, exist_ok=True)
     for p in glob.glob(os.path.join(gate, "*")):
@@ -246,7 +252,8 @@ def run_parallel_once(root: str, *, cache_dir: str, n: int, policy: Policy | Non
     if pid == 0:
         os.close(rfd)
         try:
-            _coord_child(root, sources, dict(cache_dir=cache_dir, store=store, fmt=fmt), n, policy or Policy(), gate, worker_fault, wfd)
+            _coord_child(root, sources, dict(cache_dir=cache_dir, store=store, fmt=fmt), n, policy or Policy(), gate, worker_fault, wfd,
+                         coord_kill_msgs)
         finally:
             os._exit(70)
     os.close(wfd)
@@ -260,7 +267,29 @@ def run_parallel_once(root: str, *, cache_dir: str, n: int, policy: Policy | Non
     os.waitpid(pid, 0)
     data = b"".join(chunks)
     if not data:
-        return {"messages": [], "status": 4, "crash": "coordinator died without result", "events": [], "commit_violations": []}
+        killed = os.path.exists(os.path.join(gate, "coordinator.killed"))
+        if killed:
+            # let the orphaned workers run into the closed connection and wait until they are gone (single-writer assumption)
+            pids = [int(x) for x in open(os.path.join(gate, "coordinator.killed")).read().split(",") if x]
+            t0 = time.time()
+            while time.time() - t0 < 30:
+                for p in glob.glob(os.path.join(gate, "*.ready")):
+                    go = p[:-6] + ".go"
+                    if not os.path.exists(go):
+                        open(go, "w").close()
+                alive = []
+                for wp in pids:
+                    try:
+                        with open("/proc/%d/stat" % wp) as f:
+                            if f.read().rsplit(")", 1)[1].split()[0] != "Z":
+                                alive.append(wp)
+                    except OSError:
+                        pass
+                if not alive:
+                    break
+                time.sleep(0.02)
+        return {"messages": [], "status": 4, "crash": "coordinator died without result", "coordinator_killed": killed,
+                "events": [], "commit_violations": []}
     return json.loads(data)
 
 
